@@ -14,9 +14,15 @@ import (
 // Hook, when set, is called before every instrumented field access.
 var Hook func(addr uintptr, write bool, site string)
 
+// escape forces every hooked object onto the heap: stack slots are recycled
+// between goroutines when stacks grow, which would make two unrelated
+// thread-local objects look like one shared location to the race oracle.
+var escape unsafe.Pointer
+
 // R marks a read of *p.
 func R[T any](p *T, site string) *T {
 	if Hook != nil {
+		escape = unsafe.Pointer(p)
 		Hook(uintptr(unsafe.Pointer(p)), false, site)
 	}
 	return p
@@ -25,6 +31,7 @@ func R[T any](p *T, site string) *T {
 // W marks a write of *p.
 func W[T any](p *T, site string) *T {
 	if Hook != nil {
+		escape = unsafe.Pointer(p)
 		Hook(uintptr(unsafe.Pointer(p)), true, site)
 	}
 	return p
